@@ -517,7 +517,7 @@ func (g *jsGen) expr(d int) string {
 	case 28:
 		return "(" + g.arrowFunc(d) + ")(" + g.args() + ")"
 	case 29:
-		return r.Pick([]string{"(new Object)", "new Object()", "new Array(3)", "new Error(\"m\")", "new (class{constructor(){h(" + g.nextSite() + ")}})()", "new Date(0)", "new Map([[1,2]])", "String(5n*3n)", "typeof BigInt(7)"}) // BigInt values never reach arithmetic: guard js-bigint-mix-dropped
+		return r.Pick([]string{"(new Object)", "new Object()", "new Array(3)", "new Error(\"m\")", "new (class{constructor(){h(" + g.nextSite() + ")}})()", "new Date(0)", "new Map([[1,2]])", "String(5n*3n)", "typeof BigInt(7)", "String(0x1234567890abcdefn)", "typeof 0b1111111111111111111111111111111111111111111111111111111111111111111n", "String(0o7777777777777777777777777n)", "String(0xFFn+1_0n)", "0x1234567890abc"}) // BigInt values never reach arithmetic: guard js-bigint-mix-dropped
 	case 30:
 		return g.str() + "+" + g.str() + r.Pick([]string{"", "+(" + g.expr(d+1) + ")"})
 	case 31:
@@ -525,6 +525,15 @@ func (g *jsGen) expr(d int) string {
 	case 32:
 		return r.Pick([]string{"String.raw", "h"}) + g.template()
 	case 33:
+		if r.Chance(1, 3) {
+			// every pairing of strict/loose tests against null/undefined on ONE variable, incl. the same test twice
+			v := g.someVar(false)
+			lit := func() string { return r.Pick([]string{"null", "undefined", "void 0"}) }
+			if r.Bool() {
+				return "(" + v + r.Pick([]string{"===", "=="}) + lit() + "||" + v + r.Pick([]string{"===", "=="}) + lit() + ")"
+			}
+			return "(" + v + r.Pick([]string{"!==", "!="}) + lit() + "&&" + v + r.Pick([]string{"!==", "!="}) + lit() + "?" + v + ":" + g.expr(d+1) + ")"
+		}
 		return r.Pick([]string{"typeof " + g.someVar(false) + "===\"undefined\"", "typeof " + g.someVar(false) + "!=\"function\"", g.someVar(false) + "===null||" + g.someVar(false) + "===undefined", g.someVar(false) + "!==void 0", "\"undefined\"==typeof " + g.someVar(false)})
 	case 34:
 		return "!(" + g.expr(d+1) + r.Pick([]string{"&&", "||", "==", "<", "===", "!=="}) + g.expr(d+1) + ")"
@@ -796,6 +805,24 @@ func (g *jsGen) stmt() string {
 		}
 		return kind + " " + strings.Join(parts, ",") + ";"
 	case 3:
+		if r.Chance(1, 3) {
+			// plain and destructuring declarators mixed in one statement, each initializer observable
+			kind := r.Pick([]string{"var", "var", "let"})
+			i1, i2, i3 := "h("+g.nextSite()+",1)", "[h("+g.nextSite()+",2)]", "{a:h("+g.nextSite()+",3)}"
+			a, b, c := g.declare(kind), g.declare(kind), g.declare(kind)
+			parts := []string{a + "=" + i1, "[" + b + "]=" + i2, "{a:" + c + "}=" + i3}
+			if r.Bool() {
+				parts[0], parts[1] = parts[1], parts[0]
+			}
+			if r.Chance(1, 3) {
+				parts = append(parts, "["+g.declare(kind)+"]=["+a+"]") // refers to an earlier declarator
+			}
+			tail := ""
+			if kind == "var" && r.Bool() {
+				tail = "var " + g.declare("var") + ";" // a second var statement makes the minifier merge them
+			}
+			return kind + " " + strings.Join(parts, ",") + ";" + tail
+		}
 		// destructuring declaration
 		kind := r.Pick([]string{"var", "let", "const"})
 		init := r.Pick([]string{"[1,2,3]", "[[1],{a:2}]", "\"xyz\""})
@@ -1059,7 +1086,13 @@ func (g *jsGen) classDecl() string {
 		case 4:
 			sb.WriteString("static " + r.Pick([]string{"sm", "create", "of"}) + "(" + g.params(true) + "){" + g.funcBodyInline() + "}")
 		case 5:
-			sb.WriteString("static{h(" + g.nextSite() + "," + g.expr(2) + ")}")
+			if r.Bool() {
+				// a lexical name inside the static block that looks like a generated short name
+				n := r.Pick([]string{"e", "t", "n", "r", "i"})
+				sb.WriteString("static{let " + n + "=" + g.number() + ";h(" + g.nextSite() + "," + n + "," + g.someVar(false) + "," + g.someVar(false) + ")}")
+			} else {
+				sb.WriteString("static{h(" + g.nextSite() + "," + g.expr(2) + ")}")
+			}
 		case 6:
 			sb.WriteString("*gen(){yield 1;yield " + g.expr(2) + "}")
 		default:
